@@ -268,12 +268,15 @@ def io_knobs(rng):
 
 
 def sched_spec(rng, heavy):
-    scope = "engine" if rng.random() < (0.8 if heavy else 0.6) else "all"
+    r = rng.random()
+    scope = "engine" if r < 0.55 else ("nokw" if r < 0.85 else "all")
     kind = rng.choice(["rw", "rw", "rw", "pct", "pct", "rtc"])
-    spec = {"policy": kind, "seed": rng.randrange(1 << 30), "scope": scope}
+    spec = {"policy": kind, "seed": rng.randrange(1 << 30), "scope": scope, "view": rng.random() < 0.3}
     if kind == "rw":
         if scope == "engine":
             spec["quantum"] = rng.choice([1, 2, 3, 5, 10, 30, 100])
+        elif scope == "nokw":
+            spec["quantum"] = rng.choice([1, 3, 10, 30, 100, 1000])
         else:
             spec["quantum"] = rng.choice([20, 50, 500, 5000] if heavy else [2, 5, 20, 100, 1000])
     if kind == "pct":
